@@ -4,11 +4,12 @@
      bit 1 (2): the property's own predicate fails on the implementation's observation
      bit 2 (4): the input lies in a known-finding class for this property
    Imports Model/, Spec/ and Generated/ only (no proofs), so it still builds when a proof breaks. *)
-From Verif Require Export Base.Bytes.
+From Verif Require Export Base.Bytes Model.Requirements.
 From Verif Require Import Base.Hex Base.Utf8 Crypto.Sha256 Crypto.Hmac Time.Calendar Time.Iso8601 Time.Render.
 From Verif Require Import Generated.SrcConsts Model.Errors Model.Uri Model.Query Model.Headers Model.Labels
-  Model.Requirements Model.SigningKey Model.Validate Spec.PathSpec Spec.QuerySpec Spec.Signer.
+  Model.Requirements Model.SigningKey Model.Validate Spec.PathSpec Spec.QuerySpec Spec.Signer Spec.RequestSpec.
 From Coq Require Import Strings.Byte.
+From Coq Require Strings.String.
 Local Open Scope N_scope.
 
 (* hex literal decoding: [hx "2f61"] = ["/"; "a"] *)
@@ -178,40 +179,6 @@ Definition xflags_ok (ob : observation) (x : expect) : bool :=
       | None => true
       end).
 
-Definition form_type : bytes := s2b "application/x-www-form-urlencoded".
-
-(* is this request folded, by the property's wording *)
-Definition spec_folded (rq : request) (cf : config) : bool :=
-  cf_fold cf &&
-  match content_type_charset (rq_headers rq) with
-  | Some (ct, _) => bytes_eqb ct form_type
-  | None => false
-  end.
-
-Definition spec_decoded_body (rq : request) : option bytes :=
-  match content_type_charset (rq_headers rq) with
-  | Some (_, Some cs) =>
-      match classify_label (flat_map latin1_char cs) with
-      | CsUtf8 => if utf8_valid (rq_body rq) then Some (rq_body rq) else None
-      | CsOther => rq_decoded rq
-      | CsUnknown => None
-      end
-  | _ => if utf8_valid (rq_body rq) then Some (rq_body rq) else None
-  end.
-
-(* all decoded parameters that enter the canonical query *)
-Definition spec_all_pairs (rq : request) (cf : config) : option (list (bytes * bytes)) :=
-  match decoded_pairs (match rq_query rq with Some q => q | None => [] end) with
-  | None => None
-  | Some up =>
-      if spec_folded rq cf then
-        match spec_decoded_body rq with
-        | None => None
-        | Some b => option_map (app up) (decoded_pairs b)
-        end
-      else Some up
-  end.
-
 (* the model's extraction of the presented authentication parameters (selection rules: C19) *)
 Definition presented (rq : request) (cf : config) : option auth_params :=
   match from_request_parts sha256 rq cf with
@@ -223,20 +190,19 @@ Definition presented (rq : request) (cf : config) : option auth_params :=
 Definition spec_signature_ok (rq : request) (cf : config) (ps : prov_spec) (ob : observation) : bool :=
   match presented rq cf, ob_calls ob with
   | Some ap, [c] =>
-      match parse_iso8601 (ap_timestamp ap), spec_path (cf_s3 cf) (rq_path rq), spec_all_pairs rq cf,
-            split_once "/"%byte (ap_credential ap) with
-      | Some ts, Some path, Some pairs, Some (_, scope) =>
-          let payload := if spec_folded rq cf then [] else rq_body rq in
-          let creq := spec_canonical_request sha256 (rq_method rq) path (spec_query_of_pairs pairs)
-                                             (rq_headers rq) (ap_signed ap) payload in
-          let sts := spec_string_to_sign sha256 (render_compact ts) scope creq in
-          match provider_answer ps {| g_access_key := c_ak c; g_token := c_tok c;
-                                      g_date := (c_y c, c_m c, c_d c); g_region := c_rg c;
-                                      g_service := c_sv c |} with
-          | AnsOk key _ _ => bytes_eqb (ap_signature ap) (lower_hex (hmac sha256 key sts))
-          | AnsErr _ => false
+      match parse_iso8601 (ap_timestamp ap) with
+      | Some ts =>
+          match spec_request_sts sha256 rq cf ap ts with
+          | Some sts =>
+              match provider_answer ps {| g_access_key := c_ak c; g_token := c_tok c;
+                                          g_date := (c_y c, c_m c, c_d c); g_region := c_rg c;
+                                          g_service := c_sv c |} with
+              | AnsOk key _ _ => bytes_eqb (ap_signature ap) (lower_hex (hmac sha256 key sts))
+              | AnsErr _ => false
+              end
+          | None => false
           end
-      | _, _, _, _ => false
+      | None => false
       end
   | _, _ => false
   end.
@@ -369,10 +335,34 @@ Definition prop_ok (pid : N) (rq : request) (cf : config) (ps : prov_spec) (ob :
 Definition class_of (pid : N) (rq : request) : N :=
   if in_list pid [1; 2] && has_plus (rq_path rq) then 1 else 0.
 
+Inductive key_obs :=
+| KOk (readback kdate kregion kservice ksigning : bytes) (shortcuts_agree : bool)
+| KTooLong
+| KPanic.
+
+Definition opt_z_eqb (a b : option Z) : bool :=
+  match a, b with Some x, Some y => Z.eqb x y | None, None => true | _, _ => false end.
+
+Definition string_bytes (s : String.string) : bytes := String.list_byte_of_string s.
+
 Inductive case :=
   (* canonicalize_uri_path s3 p = r ; rr = the implementation applied to its own output *)
 | PathCase (s3 : bool) (p : bytes) (r : obs (option bytes)) (rr : option bytes)
-| ValidateCase (pid : N) (rq : request) (cf : config) (ps : prov_spec) (ob : observation) (x : expect).
+| ValidateCase (pid : N) (rq : request) (cf : config) (ps : prov_spec) (ob : observation) (x : expect)
+  (* canonical query of q; expected = the reference signer's canonical form where the text is
+     conformant; stable = identical over fresh maps (fresh hash seeds) *)
+| QueryCase (q : bytes) (r : obs (option bytes)) (expected : option (option bytes)) (stable : bool)
+| KeyCase (secret : bytes) (y m d : Z) (region service : bytes) (r : key_obs)
+| CapacityCase (M : N) (secret : bytes) (class : N)     (* 0 ok, 1 too long, 2 panic *)
+  (* timestamp text (header value / percent-encoded query value); r = parsed instant or refusal;
+     expected = the reference parser's verdict *)
+| IsoCase (query_carrier : bool) (wire : bytes) (r : obs (option Z)) (expected : option Z)
+| ReqOpsCase (a b c : list bytes) (ops : list req_op) (r : obs (list bytes * list bytes * list bytes))
+| HeaderValCase (v : bytes) (r : obs bytes)
+| ErrTabCase (k : N) (name code : bytes) (status : N)
+| ErrConvCase (src : option N) (result : N)
+  (* a property check computed entirely on the implementation side (C07, C17, C18) *)
+| BoolCase (pid : N) (ok : bool).
 
 Definition run_case (c : case) : N :=
   match c with
@@ -389,6 +379,82 @@ Definition run_case (c : case) : N :=
   | ValidateCase pid rq cf ps ob x =>
       flag (model_differs pid rq cf ps ob) 1 + flag (negb (prop_ok pid rq cf ps ob x)) 2
       + 4 * class_of pid rq
+  | QueryCase q r expected stable =>
+      match r with
+      | Panic => 3
+      | Res r =>
+          let model_bad := negb (opt_bytes_eqb r (option_map canon_query (query_map q))) in
+          let spec_bad := negb (opt_bytes_eqb r (spec_query q)) in
+          let exp_bad := match expected with Some e => negb (opt_bytes_eqb r e) | None => false end in
+          flag model_bad 1 + flag (spec_bad || exp_bad || negb stable) 2
+      end
+  | KeyCase secret y m d region service r =>
+      let date := (y, m, d) in
+      match from_str 44 secret, r with
+      | FsOk k, KOk back kd kr ks kg sc =>
+          let model_bad :=
+            negb (bytes_eqb back (secret_as_ref k)
+                  && bytes_eqb kd (to_kdate sha256 k date)
+                  && bytes_eqb kr (to_kregion sha256 k date region)
+                  && bytes_eqb ks (to_kservice sha256 k date region service)
+                  && bytes_eqb kg (to_ksigning sha256 k date region service)) in
+          (* the property: read-back, the HMAC chain written out independently, shortcut agreement *)
+          let ymd := dec_fixed 4 (Z.to_N y) ++ dec_fixed 2 (Z.to_N m) ++ dec_fixed 2 (Z.to_N d) in
+          let c1 := hmac sha256 (s2b "AWS4" ++ secret) ymd in
+          let c2 := hmac sha256 c1 region in
+          let c3 := hmac sha256 c2 service in
+          let c4 := hmac sha256 c3 (s2b "aws4_request") in
+          let prop_bad :=
+            negb (bytes_eqb back secret && bytes_eqb kd c1 && bytes_eqb kr c2 && bytes_eqb ks c3
+                  && bytes_eqb kg c4 && sc && Nat.leb (length secret) 40) in
+          flag model_bad 1 + flag prop_bad 2
+      | FsKeyTooLong, KTooLong => flag (Nat.leb (length secret) 40) 2
+      | _, KPanic => 3
+      | _, _ => 1 + flag (match r with KOk _ _ _ _ _ _ => negb (Nat.leb (length secret) 40) | _ => Nat.leb (length secret) 40 end) 2
+      end
+  | CapacityCase M secret cls =>
+      let fits := N.leb (N.of_nat (length secret) + 4) M in
+      let model_cls := match from_str (N.to_nat M) secret with FsOk _ => 0 | FsKeyTooLong => 1 | FsPanic => 2 end in
+      flag (negb (N.eqb model_cls cls)) 1 + flag (negb (N.eqb cls (if fits then 0 else 1))) 2
+  | IsoCase qc wire r expected =>
+      match r with
+      | Panic => 3
+      | Res r =>
+          let text :=
+            if qc then match normalize_elem wire with
+                       | Some n => match unescape n with Some t => t | None => [] end
+                       | None => []
+                       end
+            else flat_map latin1_char (norm_value wire) in
+          flag (negb (opt_z_eqb r (parse_iso8601 text))) 1 + flag (negb (opt_z_eqb r expected)) 2
+      end
+  | ReqOpsCase a b c ops r =>
+      match r with
+      | Panic => 3
+      | Res (a', b', c') =>
+          let m := apply_ops {| always_present := a; if_in_request := b; prefixes := c |} ops in
+          flag (negb (list_eqb bytes_eqb a' (always_present m) && list_eqb bytes_eqb b' (if_in_request m)
+                      && list_eqb bytes_eqb c' (prefixes m))) 1
+      end
+  | HeaderValCase v r =>
+      match r with
+      | Panic => 3
+      | Res r => flag (negb (bytes_eqb r (norm_value v))) 1 + flag (negb (bytes_eqb r (spec_trimall v))) 2
+      end
+  | ErrTabCase k name c st =>
+      let kd := kind_of_id k in
+      let model_bad :=
+        negb (bytes_eqb name (string_bytes (kind_name kd))
+              && match code kd with Some c' => bytes_eqb c c' | None => false end
+              && match status kd with Some s' => N.eqb st s' | None => false end) in
+      (* the taxonomy the property states: malformed-request kinds 400, authentication failures 403,
+         provider infrastructure failures 500; never a success status *)
+      let want := if in_list k [3; 6; 7; 8; 9; 10] then 400 else if in_list k [1; 2] then 500 else 403 in
+      flag model_bad 1 + flag (negb (N.eqb st want)) 2
+  | ErrConvCase src result =>
+      let want := match src with Some k => kind_id (from_box (BoxSig (kind_of_id k))) | None => kind_id (from_box BoxForeign) end in
+      flag (negb (N.eqb result want)) 3
+  | BoolCase _ ok => flag (negb ok) 2
   end.
 
 (* one number per disagreeing case: 1024 * index + flags (atomic tokens survive Coq's line wrapping) *)
